@@ -82,6 +82,9 @@ def main():
       lines = [l for l in out.stdout.split("\n") if l.startswith("VIOLATION")]
       return pid, seed, out.returncode, lines[:2]
     jobs = [(pid, 0) for pid in ids] + [(prop, 1)]
+    if os.environ.get("SEED_ONLY_OWN"):
+      jobs = [(prop, 0), (prop, 1)]      # (time-boxed batches: only the check of the change's own property)
+      meta["only_own_check_run"] = True
     with ThreadPoolExecutor(max_workers=10) as ex:
       for pid, seed, rc, lines in ex.map(one, jobs):
         results[f"{pid}/seed{seed}"] = {"rc": rc, "violations": lines}
